@@ -80,6 +80,9 @@ pub enum Op {
     /// API allows and the core's own tests use); then GetChildVersion and AddVersion are compared
     /// with each other for every class of parent, as C08 states the equivalence
     PresetProbe { k: u8 },
+    /// a long history: this many further versions, each on the latest (scale: bounded walks, caches
+    /// and per-client limits only show beyond some length)
+    Bulk { c: u8, n: u16 },
 }
 
 impl Op {
@@ -99,6 +102,7 @@ impl Op {
             Op::ForeignLock { hold_us } => format!("foreign writer holds the lock for {hold_us}us"),
             Op::ForeignRead { hold_us } => format!("foreign reader keeps a read transaction open for {hold_us}us"),
             Op::Resend => "resend the last upload verbatim".into(),
+            Op::Bulk { c, n } => format!("{n} more versions for c{c}, each on the latest"),
             Op::PresetProbe { k } => format!("storage-created client #{k} with a non-nil latest id: get-child vs add-version"),
         }
     }
